@@ -7,7 +7,7 @@ from .common import *
 # token indices (0 = op) holding hex payloads / payload lists, per op: used by the shrinker
 PAYLOAD = {"kg": [2], "mg": [3], "kmg": [3], "oligo": [3], "covrow": [6], "cgr": [2], "ocgr": [4],
            "ofile": [10], "osched": [6], "cgrfile": [5], "ocgrfile": [7], "ctr": [6], "cov": [9, 10], "s2m": [5], "m2s": [5], "read": [], "cli": [4, 5], "hist": [],
-           "py:kg": [2], "py:mg": [3], "py:oligo": [3], "py:cgr": [2], "hooks": [], "csched": []}
+           "py:kg": [2], "py:mg": [3], "py:oligo": [3], "py:cgr": [2], "hooks": [], "csched": [], "msched": []}
 
 BASE_TRUSTED = [
     "Coq 8.16.1 kernel incl. vm_compute (no native_compute, no kernel flags, full .vo build)",
@@ -496,6 +496,22 @@ def gen_C10(r, tier):
         t = pick_threads(r)
         cases.append("s2m %d %d %d %s %s" % (w, m, t, cont, hxlist(recs)))
         cases.append("m2s %d %d %d %s %s" % (w, m, pick_threads(r), cont, hxlist(recs)))
+    # controlled schedules through the hooks: TAKE / PUSH (m2s) or WRITE (s2m) / EXIT traces and the resulting lines
+    def msched_case(mode, w, m, W, recs, prefix):
+        steps = sum(2 + max(0, len(x)) for x in recs) + 4
+        sched = prefix + [i for _ in range(2 * steps) for i in range(W)]
+        return "msched %s %d %d %d %s %s" % (mode, w, m, W, ",".join(map(str, sched)), hxlist(recs))
+    for _ in range({"quick": 150, "thorough": 1500}[tier] if n <= 400 or True else 0):
+        W = 1 + r.below(3); R = r.below(6); m = r.pick([1, 2, 3]); w = r.pick([0, m, m + 1, m + 3])
+        recs = [gen_file_seq(r, m, 16) for _ in range(R)]
+        if r.below(3) == 0 and recs: recs.append(recs[0])
+        cases.append(msched_case(r.pick(["s2m", "m2s"]), w, m, W, recs, [r.below(W) for _ in range(r.below(50))]))
+    if tier == "thorough":
+        import itertools
+        for W, R in ((2, 2), (2, 3)):
+            recs = [bytes(r.choices(NUC, k=5)) for _ in range(R)]
+            for wd in itertools.product(range(W), repeat=10):
+                cases.append(msched_case("m2s", 3, 2, W, recs, list(wd)))
     for nrec in ([400, 1500] if n <= 400 else [400, 1500, 4000]):
         recs = many_records(r, nrec, 3, 14)
         t = r.pick([2, 8, 16])
@@ -974,7 +990,7 @@ PROPS = {
                 rule="file level: seeded record lists (incl. highly repetitive ones) x k {1,2,3,5,10,15,21,31} x threads x memory ceilings from 6 GB down to 1e-8 GB (one chunk to dozens of chunks and partitions) x acgt x container; the sorted lines of kmers.counts and the number of surviving temp files are compared with the model (partitioned counting + merge) and the spec (multiset of canonical k-mers); then controlled-scheduler replays of count() through the hooks (W<=3 workers, R<=5 records, limits 0..1000 so that runs take 1..R+1 chunk passes; random schedule prefix + round-robin tail): the logged CHECK/TAKE/INC/ADD/EXIT trace and the content of every chunk pass must equal the Coq schedule model's; thorough enumerates all 2^10 schedule prefixes for (W,R) in {(2,2),(2,3)}; non-trivial = at least one k-mer counted",
                 assumptions=["scc entry().and_modify().or_insert() and AtomicU64 operations are atomic steps", "total windows < 2^32 (u32 counts)"]),
     "C10": dict(gen=gen_C10, needs=["harness"], sample_limit={"quick": 32, "thorough": 96}, sample_maxlen=700, extra=extra_C10,
-                rule="file level: seeded record lists (shared minimisers, reads starting with N, reads shorter than m, empty reads) x m {1,2,3,5,7,10,15,28} x w = 0 or m+1..m+20 x threads x container; s2m lines compared as a set, m2s lines as a set with lists as multisets, both against model and spec; on the implementation m2s must be the exact inversion of s2m; non-trivial = at least one line",
+                rule="file level: seeded record lists (shared minimisers, reads starting with N, reads shorter than m, empty reads) x m {1,2,3,5,7,10,15,28} x w = 0 or m+1..m+20 x threads x container; s2m lines compared as a set, m2s lines as a set with lists as multisets, both against model and spec; on the implementation m2s must be the exact inversion of s2m; then controlled-scheduler replays of both loops through the hooks (W<=3 workers, R<=6 records, random schedule prefix + round-robin tail): the logged TAKE / PUSH / WRITE / EXIT trace and the resulting lines must equal the Coq schedule model's; thorough enumerates all 2^10 schedule prefixes for (W,R) in {(2,2),(2,3)}; non-trivial = at least one line",
                 assumptions=["scc entry() and the Mutex-protected writer are atomic steps"]),
     "C09": dict(gen=gen_C09, needs=["harness"],
                 rule="corpus (witnesses of the repaired defects D1/D2 first), then seeded (w, m, sequence): m to 31, w to m+60, lengths 0,m,w-1,w,w+1,2w+3 and random to 400, half low-complexity repeats (period 1..6) with planted N and point mutations, a change on the last base, an N within the last window; thorough adds every string over {A,C,G,T,N} up to length 8 for m<=3, w<=m+2; non-trivial = at least one run",
